@@ -308,6 +308,32 @@ theorem c12_congress_counts (C : Consts) (s : State ℚ) :
     (∀ order, (step Q C s (.endInterval order)).cur = 0) :=
   ⟨fun _ => rfl, fun gid n => observeN_cur s gid n, fun order => (updateRates_target C order s).2⟩
 
+/-! ## Every binary32 rate has the shape the weight theorems assume -/
+
+/-- Every binary32 bit pattern of a rate in `(0,1]` (`0 < bits ≤ 0x3f800000`) decodes to `m·2^-k` with a
+24-bit `m`, `0 < m ≤ 2^k`: the shape the weight theorems are stated for. -/
+theorem c12_f32_rate_shape (bits : Nat) (h0 : 0 < bits) (h1 : bits ≤ 0x3f800000) :
+    ∃ m k : Nat, f32Decode bits = some ⟨m, -(k : Int)⟩ ∧ 0 < m ∧ m < 2 ^ 24 ∧ m ≤ 2 ^ k := by
+  unfold f32Decode
+  have hex : bits / 2 ^ 23 % 256 = bits / 2 ^ 23 := Nat.mod_eq_of_lt (by omega)
+  have hle : bits / 2 ^ 23 ≤ 127 := by omega
+  simp only [hex]
+  rw [if_neg (by omega), if_neg (by omega)]
+  by_cases hz : bits / 2 ^ 23 = 0
+  · rw [if_pos hz]
+    refine ⟨bits % 2 ^ 23, 149, rfl, by omega, by omega, ?_⟩
+    have : 2 ^ 23 ≤ 2 ^ 149 := Nat.pow_le_pow_right (by omega) (by omega)
+    omega
+  · rw [if_neg hz]
+    have he : ((bits / 2 ^ 23 : Nat) : Int) - 150 = -((150 - bits / 2 ^ 23 : Nat) : Int) := by omega
+    rw [he]
+    have hm : bits % 2 ^ 23 + 2 ^ 23 ≤ 2 ^ (150 - bits / 2 ^ 23) := by
+      by_cases h127 : bits / 2 ^ 23 = 127
+      · rw [h127]; omega
+      · have : 2 ^ 24 ≤ 2 ^ (150 - bits / 2 ^ 23) := Nat.pow_le_pow_right (by omega) (by omega)
+        omega
+    exact ⟨_, _, rfl, by omega, by omega, hm⟩
+
 /-! ## The driver's shortcut for large volumes -/
 
 theorem bumpFirst_zero {α : Type} (gid : Nat) (gs : List (Group α)) : bumpFirst gid 0 gs = gs := by
@@ -374,3 +400,4 @@ end Sampling
 #print axioms Sampling.c12_congress_avg_pos
 #print axioms Sampling.c12_congress_counts
 #print axioms Sampling.c12_obsN_bulk
+#print axioms Sampling.c12_f32_rate_shape
